@@ -15,7 +15,7 @@ pub fn props() -> Vec<Prop> {
             id: "C06",
             run: c06,
             tools: None,
-            rule: "byte-vector model (path -> Vec<u8>) stepped in lock-step with seeded histories of write_all / write_lines / append_all / append_line / append_lines / write() and append() handles (also kept open across calls on other files) / copy / move_p over 4 files in 2 directories with hostile data (empty, 1 byte, multi-byte UTF-8, invalid UTF-8, embedded \\n and \\r\\n, 4 KiB and 64 KiB blocks, every payload tagged with a unique id); after every call ALL files are re-read through read(), read_all() and read_lines() (and std::fs::read on Stdfs) and compared with the model, so a write that leaks into another file or an aliased copy is seen at once; read_lines(write_lines(ls)) == ls for terminator-free non-empty lines. Both backends. distinct_nontrivial = distinct (backend, operation, data class, pre-existing content class) tuples. Later addition: every file is also read through a handle that has already been used (read 1, seek(End(-k)), read_to_end, seek(Start(1)), read_to_end). A reader from read() is also kept open across any other calls (rewrite, append, move away and re-creation of its file) and then closed: the model does not move when it is closed.",
+            rule: "byte-vector model (path -> Vec<u8>) stepped in lock-step with seeded histories of write_all / write_lines / append_all / append_line / append_lines / write() and append() handles (also kept open across calls on other files) / copy / move_p over 4 files in 2 directories with hostile data (empty, 1 byte, multi-byte UTF-8, invalid UTF-8, embedded \\n and \\r\\n, 4 KiB and 64 KiB blocks, every payload tagged with a unique id); after every call ALL files are re-read through read(), read_all() and read_lines() (and std::fs::read on Stdfs) and compared with the model, so a write that leaks into another file or an aliased copy is seen at once; read_lines(write_lines(ls)) == ls for terminator-free non-empty lines. Both backends. distinct_nontrivial = distinct (backend, operation, data class, pre-existing content class) tuples. Later addition: every file is also read through a handle that has already been used (read 1, seek(End(-k)), read_to_end, seek(Start(1)), read_to_end, seek(Start(1)), read_to_string). A reader from read() is also kept open across any other calls (rewrite, append, move away and re-creation of its file) and then closed: the model does not move when it is closed.",
             assumptions: &["a handle kept open is only interleaved with calls on OTHER files (what two writers to one file see is not stated)", "the Stdfs half runs as uid 1000 in a private sandbox"],
             shards_quick: 8,
             shards_thorough: 16,
@@ -28,7 +28,7 @@ pub fn props() -> Vec<Prop> {
             id: "C07",
             run: c07,
             tools: None,
-            rule: "read side: a handle from read() and a std::io::Cursor over the same bytes are driven in lock-step by every script up to depth 2 (quick) / 3 (thorough) over read(buf of 0,1,len-1,len,len+1 bytes), seek(Start|Current|End with every offset in -len-1..=len+2 and i64::MIN, i64::MAX, u64::MAX), stream_position, read_to_end for files of length 0..=5, plus seeded random longer scripts; every returned value must agree (same Ok value / both Err), after an Err the position is unchanged, nothing panics. write side: every composition of 6 bytes into <= 4 chunks x flush bit after each chunk x drop after every prefix, for write() and append() on absent / empty / non-empty files; after every flush and after the drop an independent read must equal exactly the bytes written so far (append: old content + those bytes); for append() handles additionally another append_all to the same file at every point where the handle has nothing unflushed (after open, after each flush): its byte and the handle's bytes must all be there in the order they were made durable. Both backends (Stdfs offsets limited to < 2^32). distinct_nontrivial = distinct (backend, script shape class, outcome class) tuples.",
+            rule: "read side: a handle from read() and a std::io::Cursor over the same bytes are driven in lock-step by every script up to depth 2 (quick) / 3 (thorough) over read(buf of 0,1,len-1,len,len+1 bytes), seek(Start|Current|End with every offset in -len-1..=len+2 and i64::MIN, i64::MAX, u64::MAX), stream_position, read_to_end, read_to_string, read_exact for files of length 0..=5, plus seeded random longer scripts; every returned value must agree (same Ok value / both Err), after an Err the position is unchanged, nothing panics. write side: every composition of 6 bytes into <= 4 chunks x flush bit after each chunk x drop after every prefix, for write() and append() on absent / empty / non-empty files; after every flush and after the drop an independent read must equal exactly the bytes written so far (append: old content + those bytes); for append() handles additionally another append_all to the same file at every point where the handle has nothing unflushed (after open, after each flush): its byte and the handle's bytes must all be there in the order they were made durable; for write() handles on the in-memory backend a write_all by someone else at the same points: each later flush and the drop still leave exactly the bytes written through the handle. Both backends (Stdfs offsets limited to < 2^32). distinct_nontrivial = distinct (backend, script shape class, outcome class) tuples.",
             assumptions: &["what a write() handle shows between open and its first flush is not specified and not judged", "on Stdfs offsets beyond 2^32 are answered by the kernel (EINVAL), not by rivia, and are not generated"],
             shards_quick: 8,
             shards_thorough: 16,
@@ -132,6 +132,22 @@ fn verify_all<V: VirtualFileSystem>(v: &V, backend: &str, files: &[String], mode
                         h.read_to_end(&mut rest)?;
                         Ok(())
                     })();
+                    // ... and as text from where the handle stands (after a seek back to 1): the rest of the model when
+                    // that is UTF-8, an error when it is not - never the whole file again
+                    let _ = h.seek(SeekFrom::Start(1));
+                    let mut text = String::new();
+                    let rt = h.read_to_string(&mut text);
+                    let text_ok = match (std::str::from_utf8(&w[1..]), &rt) {
+                        (Ok(e), Ok(n)) => *n == e.len() && text == e,
+                        (Err(_), Err(_)) => true,
+                        _ => false,
+                    };
+                    if !text_ok {
+                        rep.violation(
+                            &format!("bytes:read-handle({}):text-from-the-current-position→differs", backend),
+                            wit("seek(Start(1)), read_to_string", format!("{:?} {:?}", rt.map_err(|e| e.to_string()), text.chars().take(40).collect::<String>())),
+                        );
+                    }
                     rep.count("used_handle_reads", 1);
                     if r.is_err() || one[0] != w[0] || tail != w[w.len() - k..] || rest != w[1..] {
                         rep.violation(
@@ -414,6 +430,8 @@ enum RS {
     Seek(SeekFrom),
     Pos,
     ToEnd,
+    ToString,
+    Exact(usize),
 }
 fn rs_class(s: &RS, len: usize) -> String {
     let l = len as i64;
@@ -421,6 +439,8 @@ fn rs_class(s: &RS, len: usize) -> String {
         RS::Read(n) => format!("read({})", if *n == 0 { "0" } else if *n <= len { "<=len" } else { ">len" }),
         RS::Pos => "stream_position".into(),
         RS::ToEnd => "read_to_end".into(),
+        RS::ToString => "read_to_string".into(),
+        RS::Exact(n) => format!("read_exact({})", if *n == 0 { "0" } else if *n <= len { "<=len" } else { ">len" }),
         RS::Seek(SeekFrom::Start(x)) => format!("seek(Start {})", if *x as i64 <= l && (*x as i64) >= 0 { "in" } else if *x == u64::MAX { "u64::MAX" } else { "beyond" }),
         RS::Seek(SeekFrom::Current(d)) => format!("seek(Current {})", off_class(*d, l)),
         RS::Seek(SeekFrom::End(d)) => format!("seek(End {})", off_class(*d, l)),
@@ -445,12 +465,15 @@ fn off_class(d: i64, l: i64) -> &'static str {
 }
 fn read_alphabet(len: usize, wide: bool) -> Vec<RS> {
     let l = len as i64;
-    let mut v = vec![RS::Pos, RS::ToEnd];
+    let mut v = vec![RS::Pos, RS::ToEnd, RS::ToString];
     let mut sizes = vec![0usize, 1, len.saturating_sub(1), len, len + 1];
     sizes.sort();
     sizes.dedup();
     for n in sizes {
         v.push(RS::Read(n));
+        if n > 0 {
+            v.push(RS::Exact(n));
+        }
     }
     let mut offs: Vec<i64> = (-l - 1..=l + 2).collect();
     if wide {
@@ -508,9 +531,30 @@ fn run_read_script<V: VirtualFileSystem>(v: &V, backend: &str, path: &str, bytes
                     let r2 = c.read_to_end(&mut b2).map(|k| (k, b2.clone())).map_err(|_| ());
                     (format!("{:?}", r1), format!("{:?}", r2))
                 },
+                // (the provided methods of Read are part of the contract too: whatever a handle overrides has to
+                // start from the current position like the default does)
+                RS::ToString => {
+                    let mut b1 = String::from("|");
+                    let mut b2 = String::from("|");
+                    let r1 = h.read_to_string(&mut b1).map(|k| (k, b1.clone())).map_err(|_| ());
+                    let r2 = c.read_to_string(&mut b2).map(|k| (k, b2.clone())).map_err(|_| ());
+                    (format!("{:?}", r1), format!("{:?}", r2))
+                },
+                RS::Exact(n) => {
+                    let mut b1 = vec![0u8; *n];
+                    let mut b2 = vec![0u8; *n];
+                    let r1 = h.read_exact(&mut b1).map(|_| b1.clone()).map_err(|_| ());
+                    let r2 = c.read_exact(&mut b2).map(|_| b2.clone()).map_err(|_| ());
+                    (format!("{:?}", r1), format!("{:?}", r2))
+                },
             };
             if a != b {
                 return Some((format!("step{}:{}:{}→{}", i, rs_class(s, bytes.len()), if b.starts_with("Err") { "Err" } else { "Ok(cursor value)" }, if a.starts_with("Err") { "Err" } else { "Ok(other)" }), format!("handle {} cursor {}", a, b)));
+            }
+            // (Read::read_exact: "if this function returns an error, it is unspecified how many bytes it has read" -
+            // the script ends there)
+            if matches!(s, RS::Exact(_)) && a.starts_with("Err") {
+                return None;
             }
             // position agreement, in particular after an error
             let p1 = h.seek(SeekFrom::Current(0)).map_err(|_| ());
@@ -617,7 +661,11 @@ fn c07_write<V: VirtualFileSystem>(v: &V, backend: &str, root: &str, ctx: &Ctx, 
                         // unflushed (right after open, right after a flush): every append adds at the end, so the
                         // handle's bytes still land after whatever the file holds by then and nothing is taken away
                         let mut intrusions: Vec<Option<usize>> = vec![None];
-                        if append {
+                        // (for write() handles the other call is a write_all, and only on the in-memory backend, whose
+                        // handle is documented to replace the stored content on every sync: each flush and the drop
+                        // still leave exactly the bytes written through the handle. The real backend's handle is a file
+                        // offset, which a truncation by someone else turns into a hole - not covered by the statement)
+                        if append || backend != "stdfs" {
                             for k in 0..=drop_after.min(comp.len()) {
                                 if k == 0 || flush_bits & (1 << (k - 1)) != 0 {
                                     intrusions.push(Some(k));
@@ -647,7 +695,7 @@ fn c07_write<V: VirtualFileSystem>(v: &V, backend: &str, root: &str, ctx: &Ctx, 
                             Some(0) => "after-open",
                             Some(_) => "after-flush",
                         };
-                        rep.key_str(&format!("{}|{}|{}|chunks{}|flush{:b}|drop{}|other-append-{}", backend, what, pre_cls, comp.len(), flush_bits, drop_after, icls));
+                        rep.key_str(&format!("{}|{}|{}|chunks{}|flush{:b}|drop{}|other-call-{}", backend, what, pre_cls, comp.len(), flush_bits, drop_after, icls));
                         set_case(&format!("handle:{}:{}:returns→stalls", backend, what), &format!("{:?} {:b} {} {:?}", comp, flush_bits, drop_after, intrude));
                         let wit = |stage: &str, exp: &[u8], got: &Res| {
                             J::obj(vec![
@@ -673,7 +721,12 @@ fn c07_write<V: VirtualFileSystem>(v: &V, backend: &str, root: &str, ctx: &Ctx, 
                             let mut exp: Vec<u8> = base.clone();
                             let mut pending: Vec<u8> = vec![];
                             for ci in 0..=comp.len() {
-                                if intrude == Some(ci) {
+                                if intrude == Some(ci) && !append {
+                                    if v.write_all(&path, b"X").is_err() {
+                                        return Some(("other-write→Err".to_string(), J::Null));
+                                    }
+                                }
+                                if intrude == Some(ci) && append {
                                     if v.append_all(&path, b"+").is_err() {
                                         return Some(("other-append→Err".to_string(), J::Null));
                                     }
@@ -715,7 +768,7 @@ fn c07_write<V: VirtualFileSystem>(v: &V, backend: &str, root: &str, ctx: &Ctx, 
                         match r {
                             Err(m) => rep.violation(&format!("handle:{}({},{}):no-panic→panic", what, backend, pre_cls), J::s(m)),
                             Ok(Some((sig, w))) => rep.violation(
-                                &format!("handle:{}({},{},dropped-after={}{}):{}", what, backend, pre_cls, if drop_after == 0 { "0" } else if drop_after == comp.len() { "all" } else { "some" }, if intrude.is_some() { format!(",other-append-{}", icls) } else { String::new() }, sig),
+                                &format!("handle:{}({},{},dropped-after={}{}):{}", what, backend, pre_cls, if drop_after == 0 { "0" } else if drop_after == comp.len() { "all" } else { "some" }, if intrude.is_some() { format!(",other-{}-{}", if append { "append" } else { "write" }, icls) } else { String::new() }, sig),
                                 w,
                             ),
                             Ok(None) => {},
